@@ -88,14 +88,20 @@ def behaviour(rng, kind, K, horizon):
     raise ValueError(kind)
 
 
-def gen_fleet_trace(rng, ttl, step):
-    """C05 placement dimension: one fleet ticking and reporting EVERY round for two or more timeouts; a placement is due late."""
+SPARE_KINDS = ["steady", "late", "flaky", "stopresume", "dead"]
+K_OFFSETS = [1, 2, 3, 5, 8]
+
+
+def gen_fleet_trace(rng, ttl, step, spare=None, k_off=None):
+    """C05 placement dimension: one fleet ticking and reporting EVERY round for two or more timeouts; a placement is due late.
+    spare / k_off given: the directed grid - an exact-size fleet plus ONE spare NodeHost of that behaviour, the victim's NodeHost
+    goes silent at round ttl/step + k_off; everything else (ids, regions, order of reports, what happens afterwards) is drawn."""
     K = ttl // step
     size = rng.choice([3, 3, 3, 5])
-    nsh = rng.choice([1, 1, 2])
-    f = Fleet(rng, size + rng.choice([1, 1, 2, 3]), [size] * nsh)
+    nsh = rng.choice([1, 1, 2]) if spare is None else 1
+    f = Fleet(rng, size + (rng.choice([1, 1, 2, 3]) if spare is None else 1), [size] * nsh)
     s = rng.choice(sorted(f.shards))
-    k1 = K + rng.choice([1, 2, 3, 5, 8])                 # the victim's NodeHost goes silent at a round > ttl/step
+    k1 = K + (k_off or rng.choice(K_OFFSETS))            # the victim's NodeHost goes silent at a round > ttl/step
     second = rng.random() < 0.5
     horizon = k1 + K + 8 + (K + 8 if second else 0)
     member_hosts = set(a for sh in f.shards.values() for a in sh["members"].values())
@@ -104,7 +110,7 @@ def gen_fleet_trace(rng, ttl, step):
         if a in member_hosts:
             beh[a] = behaviour(rng, rng.choice(["steady", "steady", "steady", "flaky"]), K, horizon)
         else:
-            beh[a] = behaviour(rng, rng.choice(["steady", "steady", "late", "flaky", "stopresume", "dead"]), K, horizon)
+            beh[a] = behaviour(rng, spare or rng.choice(["steady", "steady", "late", "flaky", "stopresume", "dead"]), K, horizon)
     silent_from = {}                                     # victim NodeHosts
     resume_at = {}
     ops = f.define_ops()
@@ -179,12 +185,14 @@ def gen_fleet_trace(rng, ttl, step):
     return ops
 
 
-PLOG_EVENTS = ["keep", "remove", "empty", "empty", "others", "empty_back"]
+PLOG_EVENTS = ["keep", "remove", "empty", "others", "empty_back"]
+PLOG_MODES = ["steady", "gap_long", "gap_short"]
 
 
-def gen_plog_trace(rng, ttl, step):
+def gen_plog_trace(rng, ttl, step, kind=None, mode=None):
     """C12 persisted-log dimension: the replica of a member stops being reported while its NodeHost stays live (or comes back after
-    a gap); the NodeHost's included persisted-log lists shrink / empty / name other replicas / come back."""
+    a gap); the NodeHost's included persisted-log lists shrink / empty / name other replicas / come back.
+    kind / mode given: the directed grid (what happens to the list x whether the NodeHost misses reports), for every victim."""
     K = ttl // step
     size = rng.choice([3, 3, 3, 5])
     f = Fleet(rng, size + rng.choice([0, 1, 1, 2]), [size] * rng.choice([1, 1, 2]))
@@ -204,22 +212,22 @@ def gen_plog_trace(rng, ttl, step):
     horizon = 0
     for (vrid, va) in victims:
         k_stop = rng.randint(2, 6)
-        mode = rng.choice(["steady", "steady", "steady", "gap_long", "gap_long", "gap_short"])
+        vmode = mode or rng.choice(["steady", "steady", "steady", "gap_long", "gap_long", "gap_short"])
         g = 0
-        if mode == "gap_long":
+        if vmode == "gap_long":
             g = K + rng.choice([1, 1, 2, 3])             # silent for longer than the timeout
-        elif mode == "gap_short":
+        elif vmode == "gap_short":
             g = rng.choice([1, 2, K - 1, K])             # ... not longer than the timeout
         if g:
             silent[va] = (k_stop, k_stop + g)
-        kind = rng.choice(PLOG_EVENTS)
+        vkind = kind or rng.choice(PLOG_EVENTS + ["empty"])
         k_ev = k_stop + (rng.randint(0, max(1, g - 1)) if g else rng.randint(0, 5))
 
         def stop(_r, vrid=vrid, va=va):
             f.running[va].discard((s, vrid))
         at(k_stop, stop)
 
-        def ev(r, vrid=vrid, va=va, kind=kind):
+        def ev(r, vrid=vrid, va=va, kind=vkind):
             d = f.disk[va]
             if kind == "remove":
                 f.disk[va] = [x for x in d if x != (s, vrid)]
@@ -231,7 +239,7 @@ def gen_plog_trace(rng, ttl, step):
                     at(r + rng.choice([2, 3, 5]), back)
             elif kind == "others":
                 f.disk[va] = [x for x in d if x != (s, vrid)] + [(s, vrid + rng.choice([1, 100000, 1 << 32])), (s + rng.choice([1, 100000]), vrid)]
-        if kind != "keep":
+        if vkind != "keep":
             at(k_ev, ev)
         horizon = max(horizon, k_stop + max(g, 0) + K + rng.choice([2, 3, 4]), k_ev + 8)
     ops = f.define_ops()
